@@ -131,6 +131,15 @@ type variant struct {
 	fn   func(p *profile.Profile) (*profile.Profile, error)
 }
 
+// the caller's buffer belongs to the caller: it is reused (overwritten) as soon as the parser has returned, and
+// the parsed profile must not change with it
+func reused(p *profile.Profile, err error, b []byte) (*profile.Profile, error) {
+	for i := range b {
+		b[i] = 'A'
+	}
+	return p, err
+}
+
 func variants() []variant {
 	wr := func(p *profile.Profile) ([]byte, error) {
 		var b bytes.Buffer
@@ -148,28 +157,32 @@ func variants() []variant {
 			if err != nil {
 				return nil, err
 			}
-			return profile.Parse(bytes.NewReader(b))
+			q, err := profile.Parse(bytes.NewReader(b))
+			return reused(q, err, b)
 		}},
 		{"Write+ParseData", func(p *profile.Profile) (*profile.Profile, error) {
 			b, err := wr(p)
 			if err != nil {
 				return nil, err
 			}
-			return profile.ParseData(b)
+			q, err := profile.ParseData(b)
+			return reused(q, err, b)
 		}},
 		{"WriteUncompressed+ParseUncompressed", func(p *profile.Profile) (*profile.Profile, error) {
 			b, err := wu(p)
 			if err != nil {
 				return nil, err
 			}
-			return profile.ParseUncompressed(b)
+			q, err := profile.ParseUncompressed(b)
+			return reused(q, err, b)
 		}},
 		{"WriteUncompressed+ParseData", func(p *profile.Profile) (*profile.Profile, error) {
 			b, err := wu(p)
 			if err != nil {
 				return nil, err
 			}
-			return profile.ParseData(b)
+			q, err := profile.ParseData(b)
+			return reused(q, err, b)
 		}},
 		{"Copy", func(p *profile.Profile) (*profile.Profile, error) { return p.Copy(), nil }},
 	}
